@@ -3,6 +3,8 @@ import QV.Drive.Util
 import QV.Model.Front
 import QV.Model.Sem
 import QV.Model.SemX
+import QV.Model.SemT
+import QV.Model.SemXT
 /-! JSON handlers of C01: `c01.translate` (a whole program, as `ast2ast` leaves it, to the truth
 table of its return bits) and `c01.arith` (one library function on symbolic / constant operands). -/
 namespace QV.Drive.C01
@@ -151,8 +153,9 @@ def arithOp (j : Json) : R Json := do
   pure (Json.mkObj [("n", toJson out.length), ("names", strsJ names),
                     ("table", Json.str (truthTable names out))])
 
-/-- `c01.semw`: the Lean reference semantics `QV.Sem.semProg` of a program on every assignment of its
-argument bits: one string of return bits per row, `null` where `SemW` gives no meaning -/
+/-- `c01.semw`: the Lean reference semantics `QV.Sem.semProgT` (the widening of `QV.Sem.semProg` to tuples and
+`Qchar`) of a program on every assignment of its argument bits: one string of return bits per row, `null`
+where it gives no meaning -/
 def semwOp (j : Json) : R Json := do
   let args ← (← (← j.getObjVal? "args").getArr?).toList.mapM fun e => do
     let p ← e.getArr?
@@ -161,29 +164,66 @@ def semwOp (j : Json) : R Json := do
   let body ← (← (← j.getObjVal? "body").getArr?).toList.mapM parseStmt
   let argBits := args.flatMap fun (n, t) => t.names n
   let prog : Prog := ⟨args, ret, body⟩
-  let rows : List Json := (List.range (2 ^ argBits.length)).map fun k =>
-    match QV.Sem.semProg prog (assignment argBits k) with
-    | some v => Json.str (bitsToString v.bits)
-    | none => Json.null
-  -- the exact semantics `Sem` (QV/Model/SemX.lean): per row `[python value, k, claimed bits, inRange]`
-  -- (`k = null`: in range; claimed bits as a string over 0 / 1 / ?), `null` where `Sem` gives no meaning
-  let exact : List Json := (List.range (2 ^ argBits.length)).map fun k =>
+  -- the widened semantics `SemT` (QV/Model/SemT.lean: tuples, Qchar); it extends `SemW` (theorem
+  -- `semProgT_extends_semProg`), which is re-checked here on every row where `SemW` gives a meaning
+  let mut rowsL : List Json := []
+  let mut wDefined := 0
+  let mut wellAll := true
+  for k in List.range (2 ^ argBits.length) do
     let ρ := assignment argBits k
+    let tv := QV.Sem.semProgT prog ρ
+    match QV.Sem.semProg prog ρ with
+    | some v =>
+      wDefined := wDefined + 1
+      match tv with
+      | some t =>
+        if t.bits != v.bits then throw s!"SemT differs from SemW on row {k}"
+      | none => throw s!"SemT undefined where SemW is defined (row {k})"
+    | none => pure ()
+    if !(QV.Sem.wellProg prog ρ) then wellAll := false
+    rowsL := rowsL ++ [match tv with
+      | some v => Json.str v.bitString
+      | none => Json.null]
+  let rows := rowsL
+  -- the exact semantics `Sem`, widened (QV/Model/SemXT.lean; it is `QV/Model/SemX.lean` on bool / Qint programs,
+  -- re-checked here on every row): per row `[python value, k, claimed bits, inRange]` (`k = null`: in range;
+  -- claimed bits as a string over 0 / 1 / ?; value and k are `null` for a Qchar / tuple return, whose claims
+  -- are per leaf), `null` where `Sem` gives no meaning
+  let claimStr (l : List (Option Bool)) : String := String.ofList (l.map fun c => match c with
+    | none => '?'
+    | some b => bitChar b)
+  let mut exactL : List Json := []
+  for k in List.range (2 ^ argBits.length) do
+    let ρ := assignment argBits k
+    let xt := QV.Sem.semProgXT prog ρ
     match QV.Sem.semProgX prog ρ with
     | some xv =>
-      let x : Json := match xv.v with
-        | .bool b => toJson (if b then (1 : Int) else 0)
-        | .int _ x => toJson x
-      let kk : Json := match xv.k with
-        | none => Json.null
-        | some n => toJson n
-      let claim := String.ofList (xv.claim.map fun c => match c with
-        | none => '?'
-        | some b => bitChar b)
-      Json.arr #[x, kk, Json.str claim, Json.bool (QV.Sem.inRangeProg prog ρ)]
-    | none => Json.null
+      match xt with
+      | some (.leaf xv') =>
+        if xv' != xv then throw s!"SemXT differs from SemX on row {k}"
+      | _ => throw s!"SemXT undefined or not a leaf where SemX is defined (row {k})"
+      if QV.Sem.inRangeProg prog ρ != QV.Sem.inRangeProgT prog ρ then throw s!"inRange differs on row {k}"
+    | none => pure ()
+    exactL := exactL ++ [match xt with
+      | some (.leaf xv) =>
+        let x : Json := match xv.v with
+          | .bool b => toJson (if b then (1 : Int) else 0)
+          | .int _ x => toJson x
+        let kk : Json := match xv.k with
+          | none => Json.null
+          | some n => toJson n
+        Json.arr #[x, kk, Json.str (claimStr xv.claim), Json.bool (QV.Sem.inRangeProgT prog ρ)]
+      | some v => Json.arr #[Json.null, Json.null, Json.str (claimStr v.claim), Json.bool (QV.Sem.inRangeProgT prog ρ)]
+      | none => Json.null]
+  let exact := exactL
   pure (Json.mkObj [("argbits", strsJ argBits), ("rows", Json.arr rows.toArray),
-                    ("exact", Json.arr exact.toArray)])
+                    ("exact", Json.arr exact.toArray),
+                    -- rows on which the bool / Qint semantics `SemW` alone gives a meaning; the hypotheses of
+                    -- `C01_body_struct` (`structLine`, `wellProg` on every row) and of `C01_body` (`straightLine`)
+                    ("semw_rows_defined", toJson wDefined),
+                    ("struct_line", Json.bool (QV.Sem.structLine prog)),
+                    ("straight_line", Json.bool (QV.Sem.straightLine prog)),
+                    ("well", Json.bool wellAll)])
 
 def handle (op : String) (j : Json) : Option (Except String Json) :=
   match op with
